@@ -5,6 +5,6 @@ CONSTANTS
   Emit = @@EMIT@@
 VIEW View
 ACTION_CONSTRAINT EmitEdge
-INVARIANTS TypeOK CommitOnce Refines
+INVARIANTS TypeOK CommitOnce ImplIndInv Refines
 PROPERTIES FrozenAfterCommit ImplFrozenAfterCommit BodyAppendOnly
 CHECK_DEADLOCK FALSE
